@@ -297,38 +297,42 @@ class _InMemoryBackend(backend.Backend):
     """Constructor."""
     super().__init__()
 
-    if name is None or name not in _in_memory_results:
-      study = _InMemoryResult(name, num_examples)
-      if name is not None:
-        _in_memory_results[name] = study
-    else:
-      study = _in_memory_results[name]
-
     if group is None:
       group = str(threading.get_ident())
 
-    if not algorithm.multi_objective and len(metrics_to_optimize) > 1:
-      raise ValueError(
-          f'\'metrics_to_optimize\' should include only 1 metric as '
-          f'multi-objective optimization is not supported by {algorithm!r}.')
+    # NOTE: workers of the same named study may be constructed concurrently.
+    # The get-or-create of the study and the one-time setup of the shared
+    # algorithm and early stopping policy must be atomic.
+    with _in_memory_results_lock:
+      if name is None or name not in _in_memory_results:
+        study = _InMemoryResult(name, num_examples)
+        if name is not None:
+          _in_memory_results[name] = study
+      else:
+        study = _in_memory_results[name]
 
-    # NOTE(daiyip): algorithm can continue if it's already set up with the same
-    # DNASpec, or we will setup the algorithm with input DNASpec.
-    if algorithm.dna_spec is None:
-      algorithm.setup(dna_spec)
-    elif symbolic.ne(algorithm.dna_spec, dna_spec):
-      raise ValueError(
-          f'{algorithm!r} has been set up with a different DNASpec. '
-          f'Existing: {algorithm.dna_spec!r}, New: {dna_spec!r}.')
-
-    if early_stopping_policy:
-      if early_stopping_policy.dna_spec is None:
-        early_stopping_policy.setup(dna_spec)
-      elif early_stopping_policy.dna_spec != dna_spec:
+      if not algorithm.multi_objective and len(metrics_to_optimize) > 1:
         raise ValueError(
-            f'{early_stopping_policy!r} has been set up with a different '
-            f'DNASpec. Existing: {early_stopping_policy.dna_spec!r}, '
-            f'New: {dna_spec!r}.')
+            f'\'metrics_to_optimize\' should include only 1 metric as '
+            f'multi-objective optimization is not supported by {algorithm!r}.')
+
+      # NOTE(daiyip): algorithm can continue if it's already set up with the
+      # same DNASpec, or we will setup the algorithm with input DNASpec.
+      if algorithm.dna_spec is None:
+        algorithm.setup(dna_spec)
+      elif symbolic.ne(algorithm.dna_spec, dna_spec):
+        raise ValueError(
+            f'{algorithm!r} has been set up with a different DNASpec. '
+            f'Existing: {algorithm.dna_spec!r}, New: {dna_spec!r}.')
+
+      if early_stopping_policy:
+        if early_stopping_policy.dna_spec is None:
+          early_stopping_policy.setup(dna_spec)
+        elif early_stopping_policy.dna_spec != dna_spec:
+          raise ValueError(
+              f'{early_stopping_policy!r} has been set up with a different '
+              f'DNASpec. Existing: {early_stopping_policy.dna_spec!r}, '
+              f'New: {dna_spec!r}.')
 
     if kwargs:
       logging.warning(
@@ -389,3 +393,6 @@ class _InMemoryBackend(backend.Backend):
 
 # Global dictionary for locally sampled in-memory results by name.
 _in_memory_results: Dict[str, _InMemoryResult] = {}
+
+# Lock that guards `_in_memory_results` and the setup of shared algorithms.
+_in_memory_results_lock = threading.Lock()
